@@ -528,18 +528,33 @@ func execOp(op string) (res string) {
 	if !ok {
 		return "BADOP unknown " + toks[0]
 	}
-	r := &tokReader{t: toks[1:]}
-	out, err := f(r)
-	if err != nil {
-		return "BADOP " + strings.ReplaceAll(err.Error(), "\n", " ")
-	}
-	// decoders / inspectors must leave their input buffers (and the spare capacity behind them) untouched
 	if noWriteOps[toks[0]] {
+		// decoders / inspectors run twice. First on buffers whose capacity equals their length: an index or slice expression
+		// beyond the input panics (spare capacity would hide `data[a:b]` with b > len). Then on guarded buffers: they must leave
+		// the input and the spare capacity behind it untouched, and the result must not depend on what lies behind the slice.
+		out, err := f(&tokReader{t: toks[1:], exact: true})
+		if err != nil {
+			return "BADOP " + strings.ReplaceAll(err.Error(), "\n", " ")
+		}
+		r := &tokReader{t: toks[1:]}
+		out2, err := f(r)
+		if err != nil {
+			return "BADOP " + strings.ReplaceAll(err.Error(), "\n", " ")
+		}
 		for _, g := range r.inputs {
 			if g.written() {
 				return out + " WROTE-INPUT"
 			}
 		}
+		if out2 != out {
+			return out + " CAPACITY-DEPENDENT"
+		}
+		return out
+	}
+	r := &tokReader{t: toks[1:]}
+	out, err := f(r)
+	if err != nil {
+		return "BADOP " + strings.ReplaceAll(err.Error(), "\n", " ")
 	}
 	return out
 }
